@@ -135,7 +135,7 @@ class Printer:
     def rng(self, r):
         s = f"{self.e(r['a'])} {'..=' if r['incl'] else '..'} {self.e(r['b'])}"
         if r.get('step') is not None:
-            s += f" .. {self.e(r['step'])}"
+            s += f" .. {self.e(r['step'], r['step']['k'] == 'neg')}"
         return s
 
     def block(self, b, ind):
